@@ -232,6 +232,10 @@ class Plan:
                     out.append(f"{vis}fn {name}(x: Option<{arg}>) -> Option<{arg}> {{ x }}")
                 elif m.overrides is None or name in m.overrides:
                     out.append(f'{vis}fn {name}() -> &\'static str {{ "{tag}" }}')
+            elif kind == "gfn":
+                # a generic method whose const parameter is declared BEFORE its type parameter (seeded changes C03h / C17h forwarded the
+                # method's generics explicitly, types first)
+                out.append(f"{vis}fn {name}<const GN: usize, GX: Clone>(x: GX) -> [GX; GN] {{ core::array::from_fn(|_| x.clone()) }}")
             elif kind == "afn":
                 # declared `-> impl Future` in the trait (and written that way in odd-numbered blocks), `async fn` in even-numbered blocks:
                 # legal Rust, the qualifiers of a block's fn need not be those of the declaration (seeded change C14h)
@@ -274,6 +278,8 @@ class Plan:
                 items.append(f"fn {name}(&self) -> &'static str" + (f' {{ "dflt.{name}" }}' if has_default else ";"))
             elif kind == "ltfn":
                 items.append(f"fn {name}(x: {self.lt_ty}) -> {self.lt_ty};")
+            elif kind == "gfn":
+                items.append(f"fn {name}<const GN: usize, GX: Clone>(x: GX) -> [GX; GN];")
             elif kind == "afn":
                 items.append(f"fn {name}(&self) -> impl core::future::Future<Output = u8>;")
             elif kind == "elfn":
